@@ -312,13 +312,18 @@ func plans() map[string]*propertyPlan {
 		pl.rule += "; plus the late-fault family: 13 templates of faults that arise only during augment merging or deviation application, or inside rpc/action input/output (colliding augments from two modules, collision with a uses-provided child, childless targets, a missing target behind an augment chain, a bogus step under an rpc, unknown type / bad range / unknown grouping inside input or output, an unresolvable replacement type, a doubly removed node), with random padding and load order - Process must report an error"
 		return pl
 	}
+	c17 := treePlan("on every set whose trees match, 60 sampled (start, target) pairs: absolute prefixed path from the start node's defining module, relative path through the common ancestor, and the absolute path with one step replaced by a fresh name (must return nothing); the input and output of every rpc and action are looked up, written or not (Parent, Path and the way back through ..); plus the header sets of C13 (several revisions of one module, importer with or without revision-date, all load orders): an absolute path whose first prefix is that import resolves in exactly the revision the import denotes", 20000, 400000)
+	c17.quick = append(c17.quick, spec{family: "revisions", cases: 1500, cpuS: 900, asKB: 8 << 20, wallS: 1200})
+	c17.thorough = append(c17.thorough, spec{family: "revisions", cases: 30000, cpuS: 7200, asKB: 8 << 20, wallS: 9000})
+	c17.evaluations = "sets,header_sets"
+	c17.minObserved["path_lookups_through_import"] = 1000
 	return map[string]*propertyPlan{
 		"C04": late(treePlan("after a clean Process every tree is walked (Dir and rpc input/output): name/key, parent pointers, no Entry object reached twice, kind vs child map/type/list attributes, choice children are cases, no unapplied augment, no node with recorded errors; and the set of errors expected by the reference must not be silently absent", 20000, 400000), 2600, 52000),
 		"C06": c06,
 		"C07": late(treePlan("augmented trees are compared with the reference graft (children, namespace and instantiating module of grafted nodes) and augments the reference cannot apply must be reported", 20000, 400000), 1400, 28000),
 		"C09": treePlan("the resolved type of every leaf (base kind, units, default, accumulated patterns) is compared with the reference binder", 20000, 400000),
 		"C12": treePlan("ReadOnly, Namespace and InstantiatingModule of every node are compared with the reference", 20000, 400000),
-		"C17": treePlan("on every set whose trees match, 60 sampled (start, target) pairs: absolute prefixed path from the start node's defining module, relative path through the common ancestor, and the absolute path with one step replaced by a fresh name (must return nothing)", 20000, 400000),
+		"C17": c17,
 		"C02": {
 			level:       "exploration",
 			rule:        "every string over the stated token alphabets up to the length bound, as a whole input and framed as `a <s>;`, `a{<s>}`, `a \"b\"<s>` and `pattern <s>;`, plus grammar-directed random texts with layout noise; yang.Parse vs an independent RFC 7950 s.6 reader; texts containing one of the four excluded constructs are counted as out_of_claim and not judged; non-trivial = contains a quote, escape, comment or brace; enumerated texts are distinct by construction",
@@ -331,6 +336,10 @@ func plans() map[string]*propertyPlan {
 				// (a seeded change that took a quoted "+" for the concatenation operator needs
 				// `"+""b"`, six symbols, which the 15-symbol enumerations do not reach)
 				enumSpec("a+\"' ", 7, "a \"b\"", ";", 8), enumSpec("a+\"';{}", 6, "a ", "", 8),
+				// runs of punctuation across deep nesting (a seeded change lost every token after
+				// the eighth of such a run), and escapes inside the substatements of a pattern
+				enumSpec("a;{} \n", 5, "a{b{c{d{e{f{g{h", "}}}}}}}", 8), enumSpec("a;{} ", 5, "a{b{c{d{e{f{g{h{i{j{k;}}}", "}}}}}}}}", 8),
+				enumSpec("a\\dn\" ", 5, "pattern \"a\" { b \"", "\"; }", 8), enumSpec("a\\dn\" +", 5, "pattern ", " { pattern \"\\d\"; b \"\\n\"; }", 8),
 				{family: "random", cases: 40000, cpuS: 600, asKB: 8 << 20, wallS: 900},
 			},
 			thorough: []spec{
@@ -387,12 +396,12 @@ func plans() map[string]*propertyPlan {
 		},
 		"C19": {
 			level:       "exploration",
-			rule:        "worker built with -race; rounds alternate between (1) 16 goroutines, released from a barrier, each loading and processing its own generated module set three times, result compared with the sequential dump, and (2) one processed set read by 16 goroutines at once (canonical dump incl. Namespace, InstantiatingModule and first-time FindModuleByNamespace, ToEntry from the cache, Find by child name and ../name, GetErrors, SingleDefaultValue, Path, Print), each view compared with the sequential reader's; every race-detector report is a violation; the set of distinct barrier-arrival orders observed is reported; every round is non-trivial; rounds use distinct generated sets",
+			rule:        "worker built with -race; rounds alternate between (1) 16 goroutines, released from a barrier, each loading and processing its own generated module set three times, result compared with the sequential dump, and (2) one processed set read by 16 goroutines at once (canonical dump incl. Namespace, InstantiatingModule and first-time FindModuleByNamespace, ToEntry from the cache, Find by child name and ../name, GetErrors, SingleDefaultValue, Path, Print), each view compared with the sequential reader's; plus mixed rounds (eight pipelines next to eight readers) and cold starts (fresh processes whose first use of the library is a burst of 16 concurrent loads, repeated sequentially afterwards); readers also look up every node by its absolute path and the existing input/output of every rpc and action; every race-detector report is a violation; the set of distinct barrier-arrival orders and yield-point arrival sequences observed is reported; every round is non-trivial; rounds use distinct generated sets",
 			assumptions: []string{"goroutine schedules are sampled, not enumerated", "only the operations the property lists are issued concurrently; lookups of absent rpc input/output create nodes and are not issued"},
 			minObserved: map[string]int64{"pipeline_runs": 1000, "reader_views": 500},
 			nontrivial:  "nontrivial", evaluations: "rounds",
-			quick:    []spec{{family: "stress", cases: 400, race: true, cpuS: 1800, wallS: 1800}},
-			thorough: []spec{{family: "stress", cases: 12000, race: true, cpuS: 14400, wallS: 14400}},
+			quick:    []spec{{family: "stress", cases: 400, race: true, cpuS: 1800, wallS: 1800}, {family: "coldstart", shards: 48, race: true, cpuS: 600, wallS: 900}},
+			thorough: []spec{{family: "stress", cases: 12000, race: true, cpuS: 14400, wallS: 14400}, {family: "coldstart", shards: 480, race: true, cpuS: 600, wallS: 900}},
 		},
 		"C18": {
 			level:       "exploration",
@@ -432,12 +441,12 @@ func plans() map[string]*propertyPlan {
 		},
 		"C14": {
 			level:       "exploration",
-			rule:        "every sequence of enum/bit members up to the length bound over 3 names x {implicit, 14 boundary values}, driven through NewEnumType/NewBitfield Set/SetNext (stopped at the first error) and, for every 50th sequence, through a module with an enumeration/bits leaf; plus explicit values and positions written as literals around 2^31, 2^32, 2^63, 2^64, 2^65, 3*2^64 and 2^128 (both signs, +-9) in a module, after zero or one earlier member and before an optional implicit one - out-of-range literals must be rejected whatever their magnitude; compared with RFC 7950 9.6.4.2/9.7.4.2 assignment in exact arithmetic; non-trivial = at least two members; sequences are distinct by construction",
+			rule:        "every sequence of enum/bit members up to the length bound over 4 names (one of them empty) x {implicit, 14 boundary values}, driven through NewEnumType/NewBitfield Set/SetNext (stopped at the first error) and, for every 50th sequence, through a module with an enumeration/bits leaf; plus explicit values and positions written as literals around 2^31, 2^32, 2^63, 2^64, 2^65, 3*2^64 and 2^128 (both signs, +-9) in a module, after zero or one earlier member and before an optional implicit one - out-of-range literals must be rejected whatever their magnitude; compared with RFC 7950 9.6.4.2/9.7.4.2 assignment in exact arithmetic; non-trivial = at least two members; sequences are distinct by construction",
 			assumptions: []string{"behaviour of Set/SetNext after a call that returned an error is unspecified", "bit positions need not be unique (the property does not ask for it)"},
 			minObserved: map[string]int64{"sequences": 100000, "schema_cases": 1000},
 			nontrivial:  "nontrivial", evaluations: "sequences,literal_cases", exhaustive: true,
-			quick:    []spec{{family: "enum", shards: 45, params: map[string]string{"maxlen": "3"}, cpuS: 600, asKB: 8 << 20, wallS: 900}, {family: "literal", shards: 8, cpuS: 600, asKB: 8 << 20, wallS: 900}},
-			thorough: []spec{{family: "enum", shards: 45, params: map[string]string{"maxlen": "4", "schema_every": "200"}, cpuS: 3600, asKB: 8 << 20, wallS: 5400}, {family: "literal", shards: 8, cpuS: 600, asKB: 8 << 20, wallS: 900}},
+			quick:    []spec{{family: "enum", shards: 60, params: map[string]string{"maxlen": "3"}, cpuS: 600, asKB: 8 << 20, wallS: 900}, {family: "literal", shards: 8, cpuS: 600, asKB: 8 << 20, wallS: 900}},
+			thorough: []spec{{family: "enum", shards: 60, params: map[string]string{"maxlen": "4", "schema_every": "200"}, cpuS: 3600, asKB: 8 << 20, wallS: 5400}, {family: "literal", shards: 8, cpuS: 600, asKB: 8 << 20, wallS: 900}},
 		},
 		"C15": {
 			level:       "exploration",
